@@ -293,6 +293,13 @@ class Theory:
             for n in ast.walk(s):
                 if isinstance(n, ast.Name) and isinstance(n.ctx, ast.Store):
                     out.append(n.id)
+                # `d[k] = v`, `del d[k]`, `d[k] += v`, `obj.f = v` on a local container / object also modify that local
+                if isinstance(n, (ast.Subscript, ast.Attribute)) and isinstance(n.ctx, (ast.Store, ast.Del)):
+                    base = n.value
+                    while isinstance(base, (ast.Subscript, ast.Attribute)):
+                        base = base.value
+                    if isinstance(base, ast.Name) and base.id != "self":
+                        out.append(base.id)
                 if isinstance(n, ast.ExceptHandler) and n.name:
                     out.append(n.name)
         return sorted(set(out))
